@@ -34,7 +34,7 @@ impl<'a, F: Float> NearestNeighbourIndex<F> for TableIdx<'a, F> {
 // symbolic table, or with symbolic record values through sparse_from_fn, gave no answer in 15 min: sprs construction and
 // the per-row Vec growth have data-dependent control flow).  No symbolic input: this is exhaustive testing of the
 // 8 cases by symbolic execution, not a proof about values.
-// @unit class=bounded tier=thorough mem=heavy timeout=1200 bound="n=3,k=1,all 8 neighbour tables enumerated,no symbolic data" fns=linfa_kernel::sparse::adjacency_matrix
+// @unit class=bounded tier=thorough mem=heavy timeout=1800 bound="n=3,k=1,all 8 neighbour tables enumerated,no symbolic data" fns=linfa_kernel::sparse::adjacency_matrix
 #[kani::proof]
 #[kani::unwind(10)]
 #[kani::stub(alloc::fmt::format, fmt_stub)]
